@@ -149,6 +149,9 @@ func genCLIChain(r *Runner, rng *Rng, seq int) (Case, bool) {
 	}
 	var allKeys []*TestKey
 	allKeys = append(allKeys, owner)
+	leafPEMs := map[string]*TestKey{}
+	rootcas, intercas := JObj{}, JObj{}
+	var callerInters []string
 	keysTree := JObj{}
 	steps := []any{}
 	prev := ""
@@ -168,12 +171,53 @@ func genCLIChain(r *Runner, rng *Rng, seq int) (Case, bool) {
 			r.St.Violations = append(r.St.Violations, Violation{Property: r.Prop, Kind: "input", Seed: r.Seed, Op: "clikeyid",
 				Args: map[string]any{"pub_pem": fpub}, ImplOut: out, ModelOut: fk.ID, Note: "`in-toto key id` does not print the key id (SHA-256 of the canonical public description)"})
 		}
-		keysTree = append(keysTree, JKV{fk.ID, keyTree(fk)})
+		// certificate route (Metablock wrapper only: a DSSE signature carries no certificate): the
+		// functionary is authorized by a certificate constraint, the CLI gets --key AND --cert
+		certStep := !useDSSE && rng.Chance(35)
+		certFile := ""
+		if certStep {
+			kind := rng.Pick([]string{"direct", "inter-layout", "inter-caller"})
+			cs := setupChain(kind)
+			_, pemS, err := mintLeaf(LeafSpec{CN: name, Orgs: []string{"org-one"}, DNS: []string{"a.example.org"}, Valid: "ok"}, fk.Signer.Public(), cs.Issuer)
+			if err != nil {
+				certStep = false
+			} else {
+				certFile = filepath.Join(keysDir, name+".cert.pem")
+				os.WriteFile(certFile, []byte(pemS), 0o644)
+				leafPEMs[strings.TrimSpace(pemS)] = fk
+				for k, rt := range cs.LayoutRoots {
+					if !hasKey(rootcas, rootID(k)) {
+						rootcas = append(rootcas, JKV{rootID(k), O("keyid", rootID(k), "keyid_hash_algorithms", nil, "keytype", "ecdsa", "keyval", O("public", "", "certificate", rt.PEM), "scheme", "ecdsa-sha2-nistp256")})
+					}
+					w.PemHasCert[rt.PEM] = pemHasCert(rt.PEM)
+				}
+				for k, c := range cs.LayoutInters {
+					id := fmt.Sprintf("bb%02d", k)
+					if !hasKey(intercas, id) {
+						intercas = append(intercas, JKV{id, O("keyid", id, "keyid_hash_algorithms", nil, "keytype", "ecdsa", "keyval", O("public", "", "certificate", c.PEM), "scheme", "ecdsa-sha2-nistp256")})
+					}
+					w.PemHasCert[c.PEM] = pemHasCert(c.PEM)
+				}
+				for _, c := range cs.CallerInters {
+					if !containsStr(callerInters, c.PEM) {
+						callerInters = append(callerInters, c.PEM)
+					}
+					w.PemHasCert[c.PEM] = pemHasCert(c.PEM)
+				}
+				feat = append(feat, "cert:"+kind)
+			}
+		}
+		if !certStep {
+			keysTree = append(keysTree, JKV{fk.ID, keyTree(fk)})
+		}
 		script := fmt.Sprintf("printf %%s %s > out%d.txt", shq(genStr(rng, 0)), i)
 		if rng.Chance(30) {
 			script += fmt.Sprintf("; printf %%s changed%d >> %s", i, shq(keysOf(readTree(work))[0]))
 		}
 		common := []string{"-n", name, "-k", fpriv}
+		if certStep {
+			common = append(common, "-c", certFile)
+		}
 		if metaFlag {
 			common = append(common, "-d", meta)
 		}
@@ -218,8 +262,14 @@ func genCLIChain(r *Runner, rng *Rng, seq int) (Case, bool) {
 			matRules = append(matRules, []any{"MATCH", "*", "WITH", "PRODUCTS", "FROM", prev})
 		}
 		matRules = append(matRules, []any{"ALLOW", "*"}, []any{"DISALLOW", "*"})
-		steps = append(steps, O("_type", "step", "pubkeys", []any{fk.ID}, "expected_command", []any{}, "threshold", JNum("1"), "name", name,
-			"expected_materials", matRules, "expected_products", []any{[]any{"CREATE", fmt.Sprintf("out%d.txt", i)}, []any{"ALLOW", "*"}, []any{"DISALLOW", "*"}}))
+		stepTree := O("_type", "step", "pubkeys", []any{fk.ID}, "expected_command", []any{}, "threshold", JNum("1"), "name", name,
+			"expected_materials", matRules, "expected_products", []any{[]any{"CREATE", fmt.Sprintf("out%d.txt", i)}, []any{"ALLOW", "*"}, []any{"DISALLOW", "*"}})
+		if certStep {
+			stepTree = stepTree.Set("pubkeys", []any{})
+			stepTree = stepTree.Set("cert_constraints", []any{O("common_name", rng.Pick([]string{"*", name}), "dns_names", []any{"*"}, "emails", []any{"*"},
+				"organizations", []any{rng.Pick([]string{"*", "org-one"})}, "roots", []any{"*"}, "uris", []any{"*"})})
+		}
+		steps = append(steps, stepTree)
 		prev = name
 	}
 	// final products must be what the last step recorded: inspection over the working directory
@@ -234,6 +284,10 @@ func genCLIChain(r *Runner, rng *Rng, seq int) (Case, bool) {
 		feat = append(feat, "insp")
 	}
 	layout := O("_type", "layout", "steps", steps, "inspect", insps, "keys", keysTree, "expires", "2999-01-01T00:00:00Z", "readme", "cli")
+	if len(rootcas) > 0 {
+		layout = layout.Set("rootcas", rootcas)
+		layout = layout.Set("intermediatecas", intercas)
+	}
 	unsigned := filepath.Join(base, "unsigned.layout")
 	os.WriteFile(unsigned, []byte(WriteJ(O("signed", layout, "signatures", []any{}), nil, false)), 0o644)
 	signedPath := filepath.Join(base, "root.layout")
@@ -332,8 +386,40 @@ func genCLIChain(r *Runner, rng *Rng, seq int) (Case, bool) {
 			sigTable(r, w, str(t), allKeys)
 		}
 	}
+	// certificates as they appear in the signatures the tool wrote (the model looks them up by their text)
+	for _, t := range dirFiles {
+		var m struct {
+			Signatures []struct {
+				Cert string `json:"cert"`
+			} `json:"signatures"`
+		}
+		if json.Unmarshal([]byte(str(t)), &m) != nil {
+			continue
+		}
+		for _, sg := range m.Signatures {
+			fk, ok := leafPEMs[strings.TrimSpace(sg.Cert)]
+			if sg.Cert == "" || !ok {
+				continue
+			}
+			blk, _ := pem.Decode([]byte(sg.Cert))
+			if blk == nil {
+				continue
+			}
+			c, err := x509.ParseCertificate(blk.Bytes)
+			if err != nil {
+				continue
+			}
+			ck := map[string]any{"keyid": fk.ID, "keytype": fk.Pub.KeyType, "scheme": fk.Pub.Scheme, "public": fk.Pub.KeyVal.Public, "private": "", "certificate": sg.Cert}
+			w.Certs[sg.Cert] = map[string]any{"key": ck, "info": certInfo(c, true)}
+			w.addKeyMaterial(ck)
+		}
+	}
 	for _, k := range append(allKeys, verifierKey) {
 		w.addKeyMaterial(keyJSON(k, false))
+	}
+	ci := []any{}
+	for _, p := range callerInters {
+		ci = append(ci, p)
 	}
 	vk := keyJSON(verifierKey, false)
 	vk["mapkey"] = verifierKey.ID
@@ -341,7 +427,7 @@ func genCLIChain(r *Runner, rng *Rng, seq int) (Case, bool) {
 	vpubDER, _ := x509.MarshalPKIXPublicKey(verifierKey.Signer.Public())
 	args := map[string]any{
 		"layout_text": string(layoutText), "keys": []any{vk}, "dir": map[string]any{"files": dirFiles, "subs": map[string]any{}}, "step_name": "",
-		"params": map[string]any{}, "caller_inters": []any{}, "entry": "plain", "rundir_state": "ok", "rundir": "", "marker": marker,
+		"params": map[string]any{}, "caller_inters": ci, "honest": tamper == "none", "entry": "plain", "rundir_state": "ok", "rundir": "", "marker": marker,
 		"fs": fs.contents(), "fs_digests": fs.digests(), "line_norm": false, "world": w.JSON(), "now_ns": int64(0),
 		"verifier_pub_pem": string(pem.EncodeToMemory(&pem.Block{Type: "PUBLIC KEY", Bytes: vpubDER})), "links_in_workdir": !metaFlag,
 	}
@@ -361,7 +447,13 @@ func cliverifyImpl(a map[string]any) any {
 	}
 	keyPath := filepath.Join(scratch(), "verifier.pub")
 	os.WriteFile(keyPath, []byte(str(a["verifier_pub_pem"])), 0o644)
-	code, _ := runCLI(prodDir, "verify", "-l", layoutPath, "-k", keyPath, "-d", linkDir)
+	vargs := []string{"verify", "-l", layoutPath, "-k", keyPath, "-d", linkDir}
+	for i, p := range anyStrs(a["caller_inters"]) {
+		ip := filepath.Join(scratch(), fmt.Sprintf("inter%d.pem", i))
+		os.WriteFile(ip, []byte(p), 0o644)
+		vargs = append(vargs, "-i", ip)
+	}
+	code, _ := runCLI(prodDir, vargs...)
 	cli := "err"
 	if code == 0 {
 		cli = "ok"
@@ -370,7 +462,30 @@ func cliverifyImpl(a map[string]any) any {
 	if lr == "layout-unloadable" {
 		lr = "err" // a layout that cannot even be loaded is a failed verification
 	}
-	return map[string]any{"lib": lr, "cli": cli}
+	out := map[string]any{"lib": lr, "cli": cli}
+	if h, _ := a["honest"].(bool); h {
+		// files written by the tools from an honest history are accepted by the verifying tool
+		out["honest_accepted"] = cli == "ok"
+	}
+	return out
+}
+
+func hasKey(o JObj, k string) bool {
+	for _, kv := range o {
+		if kv.K == k {
+			return true
+		}
+	}
+	return false
+}
+
+func containsStr(xs []string, x string) bool {
+	for _, y := range xs {
+		if y == x {
+			return true
+		}
+	}
+	return false
 }
 
 func init() {
@@ -383,7 +498,11 @@ func init() {
 		if res == "layout-unloadable" {
 			res = "err"
 		}
-		return map[string]any{"lib": res, "cli": res}
+		out := map[string]any{"lib": res, "cli": res}
+		if h, ok := mm["honest_accepted"]; ok {
+			out["honest_accepted"] = h
+		}
+		return out
 	}})
 	regOp(&Op{Name: "climatch", Impl: func(a map[string]any) any {
 		base := filepath.Join(scratch(), "climp")
@@ -479,7 +598,7 @@ func runC20(r *Runner, tier string, rng *Rng) {
 		batch = append(batch, Case{Op: "climatch", Args: map[string]any{"files": files, "products": products, "local": local}, Feat: fmt.Sprintf("clmp:%d:%d", len(files), len(products))})
 	}
 	flush()
-	r.St.Rule = "supply chains of 1-3 steps carried out by invoking the built binary: `run` or `record start`/`record stop` per step (with and without --use-dsse and a metadata directory), `key id` (compared with the independently computed id), `sign` and `sign --verify` (owner key and a foreign key), then one tampering out of {none, product, link, layout, wrong layout key, dropped link, renamed link, extra file}; all files are captured and `in-toto verify` (exit status) is compared with in-process library verification and with the model's verdict for the same files; `match-products` output and exit status vs the model. Class = (steps, modes, wrapper, tampering, verdict)."
+	r.St.Rule = "supply chains of 1-3 steps carried out by invoking the built binary: `run` or `record start`/`record stop` per step (with and without --use-dsse and a metadata directory; a third of the Metablock steps are authorized by a certificate constraint and run with --key and --cert, with root / layout-intermediate / caller-intermediate chains), `key id` (compared with the independently computed id), `sign` and `sign --verify` (owner key and a foreign key), then one tampering out of {none, product, link, layout, wrong layout key, dropped link, renamed link, extra file}; all files are captured and `in-toto verify` (exit status) is compared with in-process library verification and with the model's verdict for the same files, and untampered histories must be ACCEPTED; `match-products` output and exit status vs the model. Class = (steps, modes, wrapper, tampering, verdict)."
 }
 
 var _ = ed25519.Sign
